@@ -141,7 +141,7 @@ def run_case(case, ctx):
         c = ctx.call(drange, t0, t1, '%dd' % n)
         ok = a[0] == b[0] == c[0] == 'ok' and list(a[1]) == list(b[1]) == list(c[1])
         ctx.check('int_timedelta_nd_agree', ok, lambda: 'n=%d: int %s.. / timedelta %s.. / string %s..' % (n, _h(a), _h(b), _h(c)))
-    if kind != 'b' and case.get('via_calendar'):
+    if kind != 'b' and case.get('via_calendar') and not str(bump).lower().endswith('b'):      # (a Calendar reads every string ending in 'b' as ITS business days: C05's subject)
         from pyg_base import Calendar
         stc, rc = ctx.call(Calendar().drange, t0, t1, bump)
         ctx.check('calendar_drange_non_b', stc == 'ok' and list(rc) == exp, lambda: 'Calendar().drange(%s, %s, %r) = %s, drange gives %s' % (t0, t1, bump, rc[:4] if stc == 'ok' else rc, exp[:4]))
@@ -165,6 +165,9 @@ def gen_case(rng):
     if kind in ('int', 'nd'):
         n = rng.choice([1, 1, 2, 3, 7, 30, 365]) * sign
         span = rng.choice([0, 1, 2, 5, 13, 40, 400, 1100])
+        if rng.random() < 0.06:
+            n = rng.choice([1499, 1500, 1827, 4000]) * sign       # steps of several years
+            span = rng.choice([0, 900, 3700, 9000])
         t0 = day + datetime.timedelta(hours=rng.choice([0, 0, 9]))
         t1 = t0 + DAY * span * sign
         bump = n if kind == 'int' else '%dd' % n
@@ -203,11 +206,11 @@ def gen_case(rng):
         k = rng.choice([1, 1, 1, 2, 3, 5, 7]) * sign
         t0 = day
         t1 = t0 + DAY * rng.choice([0, 1, 2, 3, 6, 10, 31, 400]) * sign
-        bump = '%db' % k
+        bump = '%db' % k if rng.random() > 0.15 else '%dB' % k
         big = abs(k) > 1
     else:
         parts = []
-        units = rng.choice(['md', 'yd', 'wd', 'dh', 'mw', 'qd', 'hn', 'ym', 'bd'])
+        units = rng.choice(['md', 'yd', 'wd', 'dh', 'mw', 'qd', 'hn', 'ym', 'bd', 'wb', 'db', 'mb', 'qb'])     # also compounds that END in a business-day part
         for u in units:
             parts.append('%d%s' % (rng.choice([1, 2, 3]) * sign, u))
         if rng.random() < 0.3:
@@ -221,6 +224,8 @@ def gen_case(rng):
         intr = any(u in 'hns' for u in units)
         t0 = day + (datetime.timedelta(hours=rng.randrange(24)) if intr else datetime.timedelta(0))
         approx = sum({'d': 1, 'w': 7, 'm': 30, 'q': 91, 'y': 365, 'h': 0.05, 'n': 0.001, 'b': 1.4}[u] for u in units)
+        if rng.random() < 0.15:
+            bump = bump.upper()            # unit letters are case-insensitive
         t1 = t0 + datetime.timedelta(days=approx * rng.choice([0, 1, 2, 4, 9]) + rng.choice([0, 1])) * sign
         if not intr:
             t1 = datetime.datetime(t1.year, t1.month, min(t1.day, 28))
